@@ -338,7 +338,23 @@ def r5(chk, ctx, sp):
             chk.ob("C12.R5", "list-index handler converts to ResultPathMatchFailure", ok, "", key="%s | index handler" % up.qname, where=up.where(h), message="")
 
 
+def r6(chk, ctx, se):
+    """a null OutputPath reaches the path reader as null (and selects {}), it is not replaced by the default"""
+    mr = se.func("merge_result")
+    gets = [c for c in body_nodes(mr) if is_get(c) and const(c.args[0]) == "OutputPath"]
+    ok = len(gets) == 1 and len(gets[0].args) == 2 and const(gets[0].args[1]) == "$"
+    par = se.parent(gets[0]) if gets else None
+    ok = ok and not (isinstance(par, ast.BoolOp) and isinstance(par.op, ast.Or))
+    chk.ob("C12.R2", "merge_result: OutputPath defaults to '$' only when ABSENT (state.get('OutputPath', '$'))", ok, "",
+           key="merge_result | an explicit null OutputPath is replaced by the default", where=mr.where(),
+           message="a null path selects {}: `state.get('OutputPath') or '$'` turns an explicit null into '$' and forwards the whole document")
+    gets = [c for c in body_nodes(mr) if is_get(c) and const(c.args[0]) == "ResultPath"]
+    ok = len(gets) == 1 and len(gets[0].args) == 2 and const(gets[0].args[1]) == "$" and not isinstance(se.parent(gets[0]), ast.BoolOp)
+    chk.ob("C12.R2", "merge_result: ResultPath defaults to '$' only when ABSENT", ok, "", key="merge_result | an explicit null ResultPath is replaced by the default", where=mr.where(), message="null means discard")
+
+
 def run(chk, ctx):
+    r6(chk, ctx, ctx.mod("state_engine"))
     sp = ctx.mod("state_engine_paths")
     p = ctx.protocol()
     se = ctx.mod("state_engine")
